@@ -601,6 +601,26 @@ func (h *Handler) closeStream(ss *ShellStream) {
 	h.writer.WriteStreamClose(ss.PeerID, ss.StreamID)
 }
 
+// CloseStreamsForPeer closes every shell stream that was opened over the
+// connection to peerID. It is called when that connection is gone: the client
+// can no longer be reached, so the command is ended and its session slot
+// released instead of staying behind for ever.
+func (h *Handler) CloseStreamsForPeer(peerID identity.AgentID) int {
+	h.mu.RLock()
+	var ids []uint64
+	for id, ss := range h.streams {
+		if ss.PeerID == peerID {
+			ids = append(ids, id)
+		}
+	}
+	h.mu.RUnlock()
+
+	for _, id := range ids {
+		h.HandleStreamClose(id)
+	}
+	return len(ids)
+}
+
 // ActiveStreams returns the number of active shell streams.
 func (h *Handler) ActiveStreams() int {
 	h.mu.RLock()
